@@ -1149,6 +1149,21 @@ func c01PruneSpares(w *World, r *Report, rule string, fn *ssa.Function, g *Graph
 		if _, isIf := e.From.Instrs[len(e.From.Instrs)-1].(*ssa.If); isIf && len(e.From.Succs) == 2 && e.Via == nil {
 			same = append(same, Edge{From: e.From, Succ: 1 - e.Succ})
 		}
+		if e.Phi != nil && len(e.From.Succs) == 2 {
+			// the named condition `deployed != nil && same version`: where it is true the candidate is the deployed revision
+			allFalse := true
+			for i, in := range e.Phi.Edges {
+				if e.Phi.Block().Preds[i] == e.Via {
+					continue
+				}
+				if cb, ok := constBool(in); !ok || cb {
+					allFalse = false
+				}
+			}
+			if allFalse {
+				same = append(same, Edge{From: e.From, Succ: 1 - e.Succ})
+			}
+		}
 	}
 	ex, _ := g.PathExists(IPos{hdr.Succs[0], -1}, IPos{hdr, 0}, avoidInstrs(appends...).withEdges(same...).withEdges(notOlder...))
 	r.Check(!ex, rule, "only-deployed-and-new-exempt", pos, "a revision is passed over only when it is the deployed one (or not older than the record being created)", "a revision can be passed over for another reason: revisions that should be pruned oldest-first stay, and the history grows beyond the limit")
